@@ -82,3 +82,57 @@ fn c02_absent_key_cas_token_can_collide_with_counter() {
     let stale = s.set(k.clone(), Record::new(Bytes::from("v3"), seen_by_a, 0, 0));
     assert!(stale.is_err(), "client A overwrote v2 with the token it got for v1");
 }
+
+// ---- C04 known findings (D12): get-then-set commands, replayed deterministically through an interposed Cache
+// whose `get` lets "the other client" run one complete command before returning.
+use std::sync::Mutex;
+struct Between { inner: Arc<MemoryStore>, hook: Mutex<Option<Box<dyn FnOnce(&Arc<MemoryStore>) + Send>>> }
+impl CacheImplDetails for Between {
+    fn get_by_key(&self, key: &KeyType) -> Result<Record> { self.inner.get_by_key(key) }
+    fn check_if_expired(&self, key: &KeyType, record: &Record) -> bool { self.inner.check_if_expired(key, record) }
+}
+impl Cache for Between {
+    fn get(&self, key: &KeyType) -> Result<Record> {
+        let r = self.inner.get(key);
+        if let Some(h) = self.hook.lock().unwrap().take() { h(&self.inner); } // the other client runs now
+        r
+    }
+    fn set(&self, key: KeyType, record: Record) -> Result<SetStatus> { self.inner.set(key, record) }
+    fn delete(&self, key: KeyType, header: CacheMetaData) -> Result<Record> { self.inner.delete(key, header) }
+    fn flush(&self, header: CacheMetaData) { self.inner.flush(header) }
+    fn len(&self) -> usize { self.inner.len() }
+    fn is_empty(&self) -> bool { self.inner.is_empty() }
+    fn as_read_only(&self) -> Box<dyn CacheReadOnlyView> { self.inner.as_read_only() }
+    fn remove_if(&self, f: &mut CachePredicate) -> RemoveIfResult { self.inner.remove_if(f) }
+    fn remove(&self, key: &KeyType) -> Option<(KeyType, Record)> { self.inner.remove(key) }
+}
+
+#[test]
+fn c04_two_adds_of_an_absent_key_both_succeed_and_incr_loses_an_update() {
+    use memcrs::memcache::store::MemcStore;
+    let t = Arc::new(T(AtomicU64::new(0)));
+    let inner = Arc::new(MemoryStore::new(t.clone()));
+    let k = Bytes::from("k");
+    // client B's add runs between client A's presence test and A's set
+    let kb = k.clone();
+    let b = Between { inner: inner.clone(), hook: Mutex::new(Some(Box::new(move |s: &Arc<MemoryStore>| {
+        let other = MemcStore::new(s.clone());
+        assert!(other.add(kb.clone(), Record::new(Bytes::from("B"), 0, 0, 0)).is_ok());
+    }))) };
+    let a = MemcStore::new(Arc::new(b));
+    let ra = a.add(k.clone(), Record::new(Bytes::from("A"), 0, 0, 0));
+    println!("C04 add/add: A's add after B's add succeeded -> {:?}", ra.is_ok());
+    // append: B's append lands between A's read and A's write -> B's suffix is lost
+    let c = Bytes::from("c");
+    inner.set(c.clone(), Record::new(Bytes::from("x"), 0, 0, 0)).unwrap();
+    let cb = c.clone();
+    let b2 = Between { inner: inner.clone(), hook: Mutex::new(Some(Box::new(move |s: &Arc<MemoryStore>| {
+        let other = MemcStore::new(s.clone());
+        other.append(cb.clone(), Record::new(Bytes::from("B"), 0, 0, 0)).unwrap();
+    }))) };
+    let a2 = MemcStore::new(Arc::new(b2));
+    a2.append(c.clone(), Record::new(Bytes::from("A"), 0, 0, 0)).unwrap();
+    let v = inner.get(&c).unwrap();
+    println!("C04 append/append: final value has {} bytes (xBA or xAB would be 3)", v.len() - std::mem::size_of::<CacheMetaData>());
+    assert!(ra.is_err(), "two adds of an absent key both succeeded");
+}
